@@ -65,7 +65,7 @@ def c12_shared_solver():
     patch(Model, "copy", "new._solver = deepcopy(self.solver)", "new._solver = self.solver")
 @mutant
 def c12_contexts_kept():
-    patch(Model, "copy", "new._contexts = []", "pass")
+    patch(Model, "copy", "new._contexts = []", "new._contexts = self._contexts", count=None)   # the copy keeps the original's stack
 @mutant
 def c12_model_notes_shared():
     patch(Model, "copy", "new.notes = deepcopy(self.notes)", "new.notes = self.notes")
